@@ -382,6 +382,12 @@ func (g *Gen) findLoops() {
 		}
 		return g.loops[i].header.Index < g.loops[j].header.Index
 	})
+	for n := range g.con.Loops {
+		if n >= len(g.loops) {
+			// the contract speaks about a loop the function no longer has
+			panic(bindError{fmt.Sprintf("%s: contract has clauses for loop %d, the function has %d loop(s)", g.key, n, len(g.loops))})
+		}
+	}
 	for i, li := range g.loops {
 		li.ord = i
 		g.loopOf[li.header] = li
@@ -2017,10 +2023,10 @@ func (g *Gen) keepPrivate(preHeaps map[string]string, st *State, at ssa.Instruct
 		}
 		if len(callees) > 0 {
 			callee := callees[0]
-			anyReachPkg := func(owner string) bool {
+			anyReachPkg := func(owner, k string) bool {
 				for _, c := range callees {
-					// a reflective decoder writes fields of packages whose code it never calls
-					if g.prog.mayReachPackage(c, owner) || g.prog.reflectiveWriter(c) {
+					// a reflective decoder writes (exported) fields of packages whose code it never calls
+					if g.prog.mayReachPackage(c, owner) || (g.prog.reflectiveWriter(c) && exportedFieldKey(strings.TrimPrefix(k, "S."))) {
 						return true
 					}
 				}
@@ -2068,7 +2074,7 @@ func (g *Gen) keepPrivate(preHeaps map[string]string, st *State, at ssa.Instruct
 					continue
 				}
 				keep := false
-				if owner, ok := g.fieldOwner[k]; ok && !anyReachPkg(owner) {
+				if owner, ok := g.fieldOwner[k]; ok && !anyReachPkg(owner, k) && !g.prog.fieldAddrTaken(k) {
 					keep = true
 				}
 				if !keep && !anyWriteField(k) {
@@ -2081,7 +2087,7 @@ func (g *Gen) keepPrivate(preHeaps map[string]string, st *State, at ssa.Instruct
 					// the callee's postconditions were stated over the havoc'd name: identify the two
 					g.addFact("(= " + cur + " " + pre + ")")
 					st.heaps[k] = pre
-					g.trusted["a struct field is written only by functions that contain a store to it (directly, through a derived address, or by overwriting the whole struct) and only by code of its own package or, if exported, of packages that transitively import it; reflective writes only by the json/gob/xml/yaml/toml decoders (a callee that can reach one keeps nothing), none through unsafe: field heaps are kept across calls that cannot reach such code in the VTA-refined CHA call graph"] = true
+					g.trusted["a struct field is written only by functions that contain a store to it (directly, through a derived address, or by overwriting the whole struct) and only by code of its own package or, if exported, of packages that transitively import it; reflective writes only by the json/gob/xml/yaml/toml decoders and only to exported fields or through an address the program takes (a callee that can reach one keeps no exported field), none through unsafe: field heaps are kept across calls that cannot reach such code in the VTA-refined CHA call graph"] = true
 				}
 			}
 		}
